@@ -102,8 +102,8 @@ THEOREMS = {
          'C09_sites_fp_loop_no_panic', 'C09_sites_get_closed_loop', 'C09_sites_from_polygon_origin', 'C09_sites_from_polygon',
          'C09_sites_from_polygon_41', 'C09_sites_from_polygon_no_holes', 'C09_sites_refine_wf', 'C09_sites_refine_wf_list',
          'C09_sites_mesh_polygon_origin', 'C09_sites_mesh_polygon', 'C09_sites_mesh_polygon_41', 'C09_sites_mesh_polygon_no_holes',
-         'C09_sites_api_closed_loop_nonempty', 'C09_sites_api_holes_nonempty', 'C09_sites_api_from_polygon', 'C09_sites_api_mesh_polygon',
-         'C09_sites_41_reachable', 'C09_sites_42_needs_empty_hole'],
+         'C09_sites_api_closed_loop_nonempty', 'C09_sites_api_holes_nonempty', 'C09_sites_api_outer_nonempty', 'C09_sites_api_from_polygon', 'C09_sites_api_mesh_polygon',
+         'C09_sites_41_reachable', 'C09_sites_42_needs_empty_hole', 'C09_sites_21_needs_empty_outline'],
  'C18': ['C18_refine_ok_bound', 'C18_mesh_polygon_ok_bound', 'C18_ok_all_valid', 'C18_cached_ratio_is_triangle_ratio'],
 }
 
